@@ -116,6 +116,20 @@ static void run_case(int ntok, char **tok)
 			show_state();
 			free(d);
 		}
+		else if (!strcmp(op, "del")) {
+			/* delete the message in progress (a source of length 1 without data); only asked while one is in
+			 * progress: the request for FINISHED messages is outside the model (it searches in the null source) */
+			struct iovec w, f;
+			if (v < 4 && st._ctx) {
+				ssize_t rc;
+				w.iov_base = win; w.iov_len = cap;
+				f.iov_base = 0; f.iov_len = 1;
+				rc = enc(&st, &w, &f);
+				vh_tok("C:%zd", rc);
+				show_state();
+			}
+			else vh_tok("C:skip");
+		}
 		else if (!strcmp(op, "pushall") || !strcmp(op, "termall")) {
 			const char *sched = tok[t++];
 			size_t n = 0, off = 0;
